@@ -42,12 +42,13 @@ def generate(ctx, families=GEN_FAMILIES, deep=None):
     return outs
 
 
-def prog_like(ctx, prop, families=GEN_FAMILIES, deep=True, trace=False, soups=0, layouts=None):
+def prog_like(ctx, prop, families=GEN_FAMILIES, deep=True, trace=False, soups=0, layouts=None, prune=None):
     ctx.build_harness()
     thorough = ctx.tier == "thorough"
     outs = generate(ctx, families, deep=(((2500, 60, 40) if thorough else (100, 40, 24)) if deep else None))
     argv = ["prog-replay", "--property", prop, "--cases", ",".join(outs), "--seed", ctx.seed,
-            "--layouts", layouts or (12 if thorough else 4), "--out", "prog.json", "--soups", soups]
+            "--layouts", layouts or (8 if thorough else 4), "--out", "prog.json", "--soups", soups,
+            "--prune", prune or 3]
     if trace:
         argv += ["--trace", "parse.ndjson", "--trace-cap", 200000 if thorough else 25000]
     ctx.harness(*argv, timeout=7200)
@@ -131,7 +132,7 @@ def run_c08(ctx):
 
 def run_c12(ctx):
     thorough = ctx.tier == "thorough"
-    extra = {"ParseCheck/parse_stress": {"Bound": 2000 if thorough else 500}, "gen_plant": {}}
+    extra = {"gen_stress": {"Bound": 2000 if thorough else 500}, "ParseCheck/parse_stress": {"Bound": 1}, "gen_plant": {}}
     extra.update(corrupt_fams(thorough) if thorough else {"ParseCheck/parse_corrupt:operators": {"BaseFamily": '"operators"', "EditMenu": 4}})
     fams = fam(ctx, list(GEN_FAMILIES), extra)
     return prog_like(ctx, "C12", fams, deep=True, soups=500000 if thorough else 40000, layouts=3 if not thorough else 4)
@@ -149,7 +150,7 @@ CHECKS = {
     "C07": {"run": lambda ctx: run_c07(ctx), "level": "model_checking"},
     "C08": {"run": run_c08, "level": "model_checking"},
     "C10": {"run": lambda ctx: prog_like(ctx, "C10", fam(ctx, list(GEN_FAMILIES), {"gen_plant": {}, "ParseCheck/parse_corrupt:operators": {"BaseFamily": '"operators"', "EditMenu": 22 if ctx.tier == "thorough" else 4}}), soups=200000 if ctx.tier == "thorough" else 20000), "level": "model_checking"},
-    "C11": {"run": lambda ctx: prog_like(ctx, "C11"), "level": "model_checking"},
+    "C11": {"run": lambda ctx: prog_like(ctx, "C11", prune=1000 if ctx.tier == "thorough" else 24), "level": "model_checking"},
     "C12": {"run": run_c12, "level": "model_checking"},
     "C13": {"run": run_c13, "level": "model_checking"},
 }
